@@ -25,6 +25,7 @@ __all__ = (
 import contextlib
 import errno
 import os
+import re
 import signal
 import threading
 import traceback
@@ -777,13 +778,15 @@ class EbuildProcessor:
                 )
 
             if isinstance(val, (list, tuple)):
-                assign = f"{key}=({' '.join(f'[{i}]="{value}"' for i, value in enumerate(val))})"
+                # inside double quotes bash still interprets \, ", $ and `
+                quoted = (re.sub(r'([\\"$`])', r"\\\1", value) for value in val)
+                assign = f"{key}=({' '.join(f'[{i}]="{value}"' for i, value in enumerate(quoted))})"
             elif val.isalnum():
                 assign = f"{key}={val}"
             elif "'" not in val:
                 assign = f"{key}='{val}'"
             else:
-                assign = f"{key}=$'{val.replace("'", "\\'")}'"
+                assign = f"{key}=$'{val.replace("\\", "\\\\").replace("'", "\\'")}'"
 
             (plain if key in nonexported else exported).append(assign)
 
